@@ -6,7 +6,12 @@ OUTSIDE = ["datacopy nested futures beyond two concurrent requests of one new sh
            "weak-memory reorderings (SC only)", "more than 3 threads", "future_init through the variadic entry point (fields set as the init functions do)"]
 ASSUMPTIONS = ["the completion callback (indirect call) runs atomically", "ll2c.py translation validated natively on a sequential script on every run"]
 BOUNDS = {"quick": {"rounds": 3, "scenarios": "set||set||get, set||poll, countable 2-of-2, 2-of-3"}, "thorough": {"rounds": 4}}
-NAMES = {1: ("base_set_set_get", 3), 2: ("base_set_poll", 2), 3: ("countable_2of2_poll", 3), 4: ("countable_2of3_poll", 3), 5: ("datacopy_trigger_x2_set", 3), 7: ("datacopy_nested_same_shape_x2", 2)}
+NAMES = {1: ("base_set_set_get", 3), 2: ("base_set_poll", 2), 3: ("countable_2of2_poll", 3), 4: ("countable_2of3_poll", 3), 5: ("datacopy_trigger_x2_set", 3)}
+# scenario 7 of h.c (two threads requesting the same new nested shape through get_or_trigger with the variadic prologue
+# replaced by fixed parameters, DC_FIXED_ARITY) gave no verdict in 30 min of symbolic execution (list + object construction
+# inside the threads); it is not registered.  The seeded change C29-nested-future-published-outside-lock is therefore
+# NOT detected (DESIGN section 11).
+NAMES_UNREGISTERED = {7: ("datacopy_nested_same_shape_x2", 2)}
 # the variadic prologue of parsec_datacopy_future_get_or_trigger becomes a fixed parameter list (Engine S does not
 # translate va_arg); everything after va_end is the real code.  Re-applied to the current file on every run.
 DC_FIXED_ARITY = [("parsec/class/parsec_datacopy_future.c",
